@@ -64,3 +64,39 @@ extern "C" void c15_drive_disconnected(void) {
     SIG::emitter never;                  // default-constructed: never connected
     g_frame_kind = 1; c15_listener(never, &g_log[1]);
 }
+
+// ---- C15 audit item D4: the same two emissions made from INSIDE a coroutine (ready queue active) -------------------------------------
+// A coroutine that is started the way cocls::async<T>::detach() starts one: initially suspended, its handle put into a suspend_point
+// that is discarded - on a plain thread suspend_point::suspend_now() installs the ready queue and resumes the coroutine under it.
+// The producer calls the collector twice and DISCARDS the returned suspend points, exactly like the README generator
+//     void generate(signal<int> &sig) { auto c = sig.get_collector(); for (...) c(i); }
+// does when it is called from a coroutine.  Nothing else happens between the signals: every listener only re-awaits its emitter.
+struct c15_qtask {
+    struct promise_type {
+        c15_qtask get_return_object() { return {std::coroutine_handle<promise_type>::from_promise(*this)}; }
+        std::suspend_always initial_suspend() noexcept { return {}; }
+        std::suspend_never final_suspend() noexcept { return {}; }
+        void return_void() {}
+        void unhandled_exception() { g_log[3].other_exc += 100; }
+    };
+    std::coroutine_handle<> h;
+};
+// by_ref: both values travel through the lvalue overload, in an object of the CALLER of the producer (it outlives every listener
+// resumption of this scenario - no dangling read here; the dead-object variant is shown natively by replay/c15_emit_in_coroutine.cpp);
+// otherwise first by rvalue, then by value (the signal owns a copy).
+C15_CORO_LINKAGE c15_qtask c15_producer(SIG::collector c, int v1, int v2, int by_ref, int *obj) {
+    if (by_ref) { *obj = v1; c(*obj); *obj = v2; c(*obj); }
+    else { c(std::move(v1)); const int &cx = v2; c(cx); }
+    g_log[3].done++;                                          // the producer ran to its end
+    co_return;
+}
+extern "C" void c15_drive_incoro(int nlist, int v1, int v2, int by_ref) {
+    int obj = 0;
+    {
+        SIG s;
+        for (int i = 0; i < nlist; i++) { g_frame_kind = 1; c15_listener(s.get_emitter(), &g_log[i]); }
+        g_frame_kind = 2; c15_qtask p = c15_producer(s.get_collector(), v1, v2, by_ref, &obj);
+        { suspend_point<void> start(p.h); }                    // discarded: the producer runs here, under the ready queue; the queue is flushed before this returns
+        // s destroyed (the producer's collector went with its frame): every still waiting listener is released with await_canceled_exception
+    }
+}
